@@ -477,3 +477,30 @@ func (g *G) BulkCalls(totalKiB int) []wl.Call {
 	}
 	return append(calls, wl.Call{Op: "close"})
 }
+
+
+// Reannounce returns the call sequence with channel (and schema) records written again, identically, right after some of
+// the messages that use them: recorders re-announce channels periodically, and the specification allows a channel record to
+// be repeated anywhere.  What the writer has already noted about the channel (its messages in the open chunk) must survive.
+func (g *G) Reannounce(calls []wl.Call) []wl.Call {
+	chans := map[uint16]wl.Call{}
+	schemas := map[uint16]wl.Call{}
+	var out []wl.Call
+	for _, c := range calls {
+		out = append(out, c)
+		switch c.Op {
+		case "schema":
+			schemas[c.ID] = c
+		case "channel":
+			chans[c.ID] = c
+		case "message":
+			if ch, ok := chans[c.Ch]; ok && g.R.Intn(3) == 0 {
+				if sc, ok := schemas[ch.Schema]; ok && g.R.Intn(2) == 0 {
+					out = append(out, sc)
+				}
+				out = append(out, ch)
+			}
+		}
+	}
+	return out
+}
